@@ -112,6 +112,53 @@ pub fn impl_answer(case: &Case) -> String {
             let src = String::from_utf8_lossy(&crate::sx::unhex(payload[1].as_atom().unwrap_or("x"))).into_owned();
             eval_on_impl(&spec, Some(&src), None)
         }
+        "c01" => {
+            let src = String::from_utf8_lossy(&crate::sx::unhex(payload[0].as_atom().unwrap_or("x"))).into_owned();
+            let t0 = std::time::Instant::now();
+            let r = quietly(|| catch_unwind(|| cel_interpreter::Program::compile(&src).map(|_| ())));
+            let slow = t0.elapsed().as_secs_f64() > 5.0;
+            match r {
+                Err(_) => "(panic)".to_string(),
+                Ok(Ok(())) => {
+                    // the AST as the parser crate reports it (same parse)
+                    let ast = quietly(|| catch_unwind(|| cel_parser::Parser::new().parse(&src)));
+                    match ast {
+                        Ok(Ok(a)) => format!("(c01 (ast {}) {})", expr_to_sx(&a).to_text(), if slow { "slow" } else { "ok" }),
+                        _ => "(c01 (ast inconsistent) ok)".to_string(),
+                    }
+                }
+                Ok(Err(errs)) => {
+                    let lines: Vec<&str> = src.split('\n').collect();
+                    let mut problem = String::new();
+                    if errs.errors.is_empty() {
+                        problem = "empty-error-list".into();
+                    }
+                    for e in &errs.errors {
+                        let text = e.to_string();
+                        if text.trim().is_empty() {
+                            problem = "empty-error-text".into();
+                        }
+                        let (line, col) = e.pos;
+                        let n_lines = lines.len().max(1) as isize;
+                        if line < 1 || line > n_lines {
+                            problem = format!("line-{line}-of-{n_lines}");
+                        } else {
+                            let len = lines.get((line - 1) as usize).map_or(0, |l| l.chars().count()) as isize;
+                            if col < 1 || col > len + 1 {
+                                problem = format!("column-{col}-beyond-line-{line}-of-length-{len}");
+                            }
+                        }
+                    }
+                    if errs.to_string().trim().is_empty() {
+                        problem = "empty-rendering".into();
+                    }
+                    if slow {
+                        problem = "slow".into();
+                    }
+                    format!("(c01 (reject) {})", if problem.is_empty() { "ok".to_string() } else { problem })
+                }
+            }
+        }
         "compile" => {
             let src = String::from_utf8_lossy(&crate::sx::unhex(payload[0].as_atom().unwrap_or("x"))).into_owned();
             match quietly(|| catch_unwind(|| cel_parser::Parser::new().parse(&src))) {
